@@ -48,6 +48,29 @@ class LocalNameDefs(PlainDefs):
     local_use = 'use crate::reexport::inner as st;'
 
 
+class SoloDefs(rustgen.EnumGen):
+    defs_only = True
+
+
+def solo_clones(especs, only=None):
+    out = []
+    for e in especs:
+        ds = [d for d in e.derives if only is None or d in only]
+        if len(e.derives) < 2:
+            continue
+        for d in ds:
+            if d == 'EnumTable' or (d == 'VariantArray' and any(v.kind != 'unit' for v in e.variants)):
+                continue
+            c = copy.deepcopy(e)
+            c.id = '%s_solo_%s' % (e.id, d.lower())
+            c.name = '%sSolo%s' % (e.name, d)
+            c.derives = [d]
+            c.extra['from'] = e.extra.get('from')
+            c.extra['shape'] = 'solo %s of %s' % (d, e.extra.get('shape', e.id))
+            out.append(c)
+    return out
+
+
 class ShadowDefs(rustgen.EnumGen):
     palette_map = rustgen.NOSTD_MAP
     defs_only = True
@@ -175,6 +198,10 @@ def run(tier, seed, rng):
                  lambda e, k: LocalNameDefs(e, 'st') if (k + len(e.derives)) % 3 == 2 else PlainDefs(e, paths[(k + len(e.derives)) % 3]), '#![allow(warnings)]', extra_main='pub mod reexport { pub use strum2 as inner; }')
     build_config(res, 'shadowed', especs, runner.Workspace('c19shadow', target_key='std'),
                  lambda e, k: ShadowDefs(e), '#![allow(warnings)]')
+    # every derive ALONE on the definition: each one has to bring the `strum` helper attribute (and everything else it
+    # needs) itself
+    solos = solo_clones(especs[::3] if tier == 'quick' else especs)
+    build_config(res, 'solo-derive', solos, runner.Workspace('c19solo', target_key='std'), lambda e, k: SoloDefs(e), '#![allow(warnings)]')
     res.cov['programs'] = len(especs)
     res.cov['evaluations'] = len(lines) + 3 * len(especs)
     res.cov['disagreements_checked'] = nrefs
